@@ -777,6 +777,25 @@ def _run_local(case):
 
     def symform(a, toks, form):
         """the same symbols in another spelling"""
+        if a.letter and form.endswith("m"):
+            # items may be strings of several letters (`65.67`) or empty (`.`): containers of bytes / str items
+            items = [_letters(t) for t in toks]
+            strs = [x.decode("latin-1") for x in items]
+            kind = form[:-1]
+            if kind == "aS":
+                return np.array(items) if items else np.array([], dtype="S1")
+            if kind == "aU":
+                return np.array(strs) if strs else np.array([], dtype="U1")
+            if kind == "aO":
+                o = np.empty(len(strs), dtype=object)
+                for i, x in enumerate(strs):
+                    o[i] = x
+                return o
+            if kind == "t":
+                return tuple(strs)
+            if kind == "lb":
+                return items
+            return strs
         if a.letter:
             b = bytes(int(t) for t in toks)
             if form in ("", "b"):
@@ -838,6 +857,8 @@ def _run_local(case):
             return "ok " + ("true" if a.alph.extends(b.alph) else "false")
         if op == "s_new":
             a = A(w[1], fresh=len(regs) % 2 == 1)       # alternately the cached object and an equal, not identical one
+            if len(w) > 3:
+                return push(seq.GeneralSequence(a.alph, symform(a, _ptoks(w[2]), w[3])), a)
             return push(seq.GeneralSequence(a.alph, a.syms(_ptoks(w[2]))), a)
         if op == "s_nuc":
             s = seq.NucleotideSequence(bytes(int(t) for t in _ptoks(w[1])).decode("latin-1"))
@@ -1061,6 +1082,29 @@ def _run_local(case):
                 return "ok " + (str(p) or "_")
             prots, pos = s.translate(complete=False, codon_table=tab[0], met_start=(w[2] == "1"))
             return "ok " + (";".join(f"{p}@{int(a)}-{int(b)}" for p, (a, b) in zip(prots, pos)) or "_")
+        if op == "c_codes":
+            if table[0] is None:
+                return "ERR:notable"
+            rows = [[int(x) for x in r.split(".")] for r in w[2].split(";")]
+            t = table[0]
+            if w[1] == "tuple":
+                return "ok " + _ints(int(t[tuple(r)]) for r in rows)
+            if w[1] == "list":
+                return "ok " + _ints(int(t[list(r)]) for r in rows)
+            dt = {"map": np.int64, "map32": np.int32, "map8": np.int8, "start": np.int64}[w[1]]
+            if w[1] == "start":
+                return "ok " + _ints(int(x) for x in t.is_start_codon(np.array(rows, dtype=dt)))
+            return "ok " + _ints(t.map_codon_codes(np.array(rows, dtype=dt)))
+        if op == "c_orfmut":      # the proteins returned for several ORFs are independent objects
+            if table[0] is None:
+                return "ERR:notable"
+            dna = seq.NucleotideSequence(w[1])
+            prots, pos = dna.translate(codon_table=table[0], met_start=(w[2] == "1"))
+            k, at = int(w[3]), int(w[4])
+            before = [str(p) for p in prots]
+            if k < len(prots) and at < len(prots[k]):
+                prots[k][at] = w[5]
+            return "ok " + (";".join(before) or "_") + " -> " + (";".join(str(p) for p in prots) or "_")
         if op == "c_trreg":
             if table[0] is None:
                 return "ERR:notable"
@@ -1845,6 +1889,54 @@ def _case_setseq_mask(rng):
     return {"kind": "sequence-setseq-mask", "check_ops": ops}
 
 
+def _case_codon_codes(rng):
+    """codons given as code tuples / arrays (signed dtypes), with negative and too large codes at every position"""
+    ops = [rng.choice(["c_default", f"c_load {rng.choice(TABLE_IDS)}"])]
+    for _ in range(rng.randint(3, 6)):
+        form = rng.choice(["tuple", "list", "map", "map32", "map8", "start"])
+        rows = [[rng.randrange(4) for _ in range(3)] for _ in range(1 if form in ("tuple", "list") and rng.random() < 0.6 else rng.randint(1, 4))]
+        r = rng.random()
+        if r < 0.45:
+            rows[rng.randrange(len(rows))][rng.randrange(3)] = rng.choice([-1, -1, -2, -3, -4, -5, -16, -64, -128])
+        elif r < 0.6:
+            rows[rng.randrange(len(rows))][rng.randrange(3)] = rng.choice([4, 5, 16, 64, 127])
+        elif r < 0.7:       # a negative and a compensating positive code: the radix sum lands on a valid number
+            rows[0] = rng.choice([[0, 1, -1], [1, -1, 2], [1, 0, -4], [0, 4, -16 + 3], [-1, 4, 0]])
+        ops.append(f"c_codes {form} " + ";".join(".".join(str(c) for c in row) for row in rows))
+    return {"kind": "codon-codes", "ops": ops}
+
+
+def _case_enc_multi(rng):
+    """encode_multiple / Sequence construction from containers whose items are NOT single letters (bytes / str arrays of
+    every item width, object arrays, lists, tuples), first letters inside the alphabet"""
+    al = [str(p) for p in _letter_alph(rng, small=True)]
+    spec = "L:" + _toks(al)
+    ops = []
+    for _ in range(rng.randint(3, 6)):
+        n = rng.choice([1, 2, 3, 5])
+        items = [rng.choice(al) for _ in range(n)]
+        width = rng.choice([2, 2, 3, 4, 4, 5, 8, 1])
+        if width > 1:
+            k = rng.randrange(n)
+            items[k] = ".".join([items[k]] + [rng.choice(al) for _ in range(width - 1)])
+        elif rng.random() < 0.3:
+            items[rng.randrange(n)] = "."
+        form = rng.choice(["aSm", "aSm", "aSm", "aUm", "aOm", "lm", "tm", "lbm"])
+        ops.append(f"{rng.choice(['enc', 'enc', 's_new'])} {spec} {_toks(items)} {form}")
+    return {"kind": "encode-multi-letter", "ops": ops}
+
+
+def _case_orfmut(rng):
+    """several ORFs in ONE reading frame (a start codon inside another ORF); assigning into one returned protein must not
+    change the others — oracle only"""
+    ops = [rng.choice(["c_default", "c_default", f"c_load {rng.choice([1, 11, 4])}"])]
+    for _ in range(3):
+        body = ["ATG"] + [rng.choice(["AAA", "TTT", "GGC", "ATG", "ATG", "CCA"]) for _ in range(rng.randint(2, 5))] + [rng.choice(["TAA", "TAG", "GGG"])]
+        dna = rng.choice(["", "C", "GG"]) + "".join(body) + rng.choice(["", "A", "ATGC"])
+        ops.append(f"c_orfmut {dna} {rng.choice([0, 0, 1])} {rng.randint(0, 2)} {rng.randint(0, 4)} {rng.choice('XWA')}")
+    return {"kind": "orf-independence", "check_ops": ops}
+
+
 def _case_eq(rng):
     """`==` between sequences whose code arrays coincide although alphabet / class / symbols differ"""
     ops = []
@@ -2050,7 +2142,7 @@ def _case_codon(rng, table_id=None):
 def cases(rng, tier):
     scale = 1 if tier == "quick" else 12
     plan = [(_case_alphabet, 110), (_case_bytes, 16), (_case_newalph, 12), (_case_mapper, 50), (_case_mapper_big, 12),
-            (_case_sequence, 130), (_case_add, 30), (_case_eq, 40), (_case_pickle, 40), (_case_setcode_full, 30), (_case_spellings, 50), (_case_seq_api, 50), (_case_index_extra, 15), (_case_kmer_api, 30), (_case_codon_api, 30), (_case_translate_invalid, 30), (_case_kmer_overflow, 8), (_case_dup, 25), (_case_alias, 15), (_case_setseq, 50), (_case_setseq_mask, 10), (_case_kmer, 110), (_case_kmer_illegal, 20), (_case_codon, 110), (_case_derive, 50)]
+            (_case_sequence, 130), (_case_add, 30), (_case_eq, 40), (_case_pickle, 40), (_case_setcode_full, 30), (_case_spellings, 50), (_case_seq_api, 50), (_case_index_extra, 15), (_case_kmer_api, 30), (_case_codon_api, 30), (_case_translate_invalid, 30), (_case_kmer_overflow, 8), (_case_dup, 25), (_case_alias, 15), (_case_setseq, 50), (_case_setseq_mask, 10), (_case_codon_codes, 30), (_case_enc_multi, 30), (_case_orfmut, 20), (_case_kmer, 110), (_case_kmer_illegal, 20), (_case_codon, 110), (_case_derive, 50)]
     for fn, cnt in plan:
         for _ in range(cnt * scale):
             yield fn(rng)
@@ -2105,6 +2197,11 @@ def corpus():
         {"kind": "sequence-setcode-full", "ops": ["s_new R:256:256:1:0 i0,i1,i255", "s_setcode 0 i8 -1,0", "s_str 0", "s_setcode 0 i8 -128", "s_str 0", "s_setcode 0 u8 255,0", "s_str 0",
                                                   "s_setarr 0 0 1 i8 -1", "s_str 0", "s_new R:65536:65536:1:0 i0,i65535", "s_setcode 1 i16 -1,5", "s_str 1",
                                                   "s_setcode 1 i8 -1", "s_str 1", "s_setcode 1 u8 255", "s_str 1", "s_setcode 1 u16 65535", "s_str 1"]},
+        {"kind": "codon-codes", "ops": ["c_default", "c_codes tuple 0.0.3", "c_codes tuple 0.1.-1", "c_codes map 0.0.-1;0.3.2", "c_codes start 1.-1.2", "c_codes start 0.3.2;0.0.0",
+                                        "c_codes tuple 0.0.4", "c_codes map8 3.3.3;-1.0.0"]},
+        {"kind": "encode-multi-letter", "ops": ["enc L:65,67,71,84 65.67,71 aSm", "enc L:65,67,71,84 71.84,84.65,67.67 aSm", "s_new L:65,67,71,84 71.84,84.65,67.67 aSm",
+                                                "enc L:65,67,71,84 65.67.71.84,71 aSm", "enc L:65,67,71,84 65.67,71 aUm", "enc L:65,67,71,84 65.67,71 lm", "enc L:65,67,71,84 65,71 aSm"]},
+        {"kind": "orf-independence", "check_ops": ["c_default", "c_orfmut ATGAAAATGTTTTAA 0 0 3 X", "c_orfmut ATGAAAATGTTTTAA 0 1 1 X", "c_orfmut ATGAAAATGTTTTAA 1 0 3 X"]},
         {"kind": "sequence-setseq", "ops": ["s_nuc 65,67,71,84", "s_nuc 78,78", "s_setseq 0 1 3 1", "s_str 0", "s_valid 0", "s_nuc2 T 71,71", "s_setseq 0 1 3 2", "s_str 0",
                                             "s_prot 87,89", "s_setseq 0 0 2 3", "s_str 0", "s_prot 67,68", "s_setseq 0 0 2 4", "s_str 0", "s_prot 67,67", "s_setseq 0 0 2 5", "s_str 0"]},
         {"kind": "sequence-pickle", "ops": ["s_nuc 65,67,78,82", "s_pickle 0", "s_copy 1", "s_str 2", "s_eq 2 0", "s_rev 1", "s_str 3", "s_compl 1", "s_str 4",
@@ -2759,6 +2856,35 @@ def reference(ops):
                 e = ("eq", "ok " + _toks(reversed(ds)))
             else:
                 e = ("err", {"AlphabetError"})
+        elif op == "c_codes":
+            if table[0] is None:
+                e = ("eq", "ERR:notable")
+            elif table[0] == "unknown":
+                e = None
+            else:
+                d, starts = table[0]
+                rows = [[int(x) for x in r.split(".")] for r in w[2].split(";")]
+                if all(len(r) == 3 and all(0 <= c < 4 for c in r) for r in rows):
+                    cod = ["".join("ACGT"[c] for c in r) for r in rows]
+                    e = ("eq", "ok " + (_ints(int(c in starts) for c in cod) if w[1] == "start" else _ints(AA.index(d[c]) for c in cod)))
+                elif all(len(r) == 3 for r in rows):
+                    e = ("err", {"AlphabetError"})       # a code outside 0..3 (negative ones included) is never a nucleotide
+                else:
+                    e = None
+        elif op == "c_orfmut":
+            if table[0] is None:
+                e = ("eq", "ERR:notable")
+            elif table[0] == "unknown":
+                e = None
+            else:
+                d, starts = table[0]
+                line = _ref_orfs(w[1].upper(), d, starts, w[2] == "1")
+                prots = [] if line == "ok _" else [x.split("@")[0] for x in line[3:].split(";")]
+                k, at = int(w[3]), int(w[4])
+                after = list(prots)
+                if k < len(prots) and at < len(prots[k]):
+                    after[k] = prots[k][:at] + w[5] + prots[k][at + 1:]      # only the protein that was assigned to changes
+                e = ("eq", "ok " + (";".join(prots) or "_") + " -> " + (";".join(after) or "_"))
         elif op == "rt":
             letter, al = alph_of(w[1])
             syms = _ptoks(w[2])
